@@ -142,7 +142,7 @@ let () =
                           | [ tp; msg; q; r; tg ] ->
                               Some
                                 { w_topic = unhex tp; w_message = unhex msg; w_qos = n (ios q); w_retain = b r;
-                                  w_props = (if tg = "x" then None else Some (n (ios tg))) }
+                                  w_props = (if tg = "x" then None else Some (n (ios (List.hd (String.split_on_char 'd' tg))))) }
                           | _ -> failwith "will"
                       in
                       OpConnect
